@@ -2,6 +2,7 @@
 //! fields, runs the REAL cgt-tool entry points and states the property as obligations over the outputs.
 
 pub mod common;
+pub mod fx;
 pub mod matching;
 pub mod relational;
 pub mod report;
@@ -17,6 +18,7 @@ pub fn run(prop: &str, sk: &Skeleton) -> Leaf {
         "C07dates" => report::c07_dates(sk),
         "C07mcp" => report::c07_mcp(sk),
         "C07" => report::c07(sk),
+        "C08" => fx::c08(sk),
         "C14" => text::c14(sk),
         "C15" => text::c15(sk),
         "C17" => text::c17(sk),
@@ -35,4 +37,9 @@ pub fn on_panic(prop: &str, _sk: &Skeleton, leaf: &mut Leaf) {
     if prop == "C15" {
         text::c15_on_panic(leaf);
     }
+}
+
+/// the CLI's own read_fx_folder (source-extracted by build.rs); None if it could not be extracted
+pub fn relational_cli_fx_folder(p: &std::path::Path) -> Option<Vec<cgt_money::RateFile>> {
+    relational::cli_fx_folder(p)
 }
